@@ -671,6 +671,19 @@ impl StringLiteralToken<&str> {
         let mut template = false;
         let mut current = String::new();
 
+        // Segment positions are counted in characters (the opening quote is character 0); spans
+        // are byte offsets into the source, so a multi-byte character before a segment matters.
+        let offsets = self
+            .0
+            .char_indices()
+            .map(|(i, _)| i)
+            .chain(std::iter::once(self.0.len()))
+            .collect::<Vec<_>>();
+        let byte_span = |start: usize, end: usize| {
+            let byte = |c: usize| span.start() + 1 + offsets[c.saturating_sub(1).min(chars.len())];
+            Span::new(byte(start), byte(end))
+        };
+
         let mut pos = 0;
         while pos < chars.len() {
             match chars[pos] {
@@ -680,7 +693,7 @@ impl StringLiteralToken<&str> {
                         let seg = std::mem::take(&mut current);
                         segments.push(StringSegment::Template(
                             seg.trim().to_string(),
-                            Span::new(pos - seg.chars().count() - 1, pos + 3) + span.start(),
+                            byte_span(pos - seg.chars().count() - 1, pos + 3),
                         ));
                     }
                     template = false;
@@ -708,7 +721,7 @@ impl StringLiteralToken<&str> {
                         let seg = std::mem::take(&mut current);
                         segments.push(StringSegment::Literal(
                             unescape_string_literal(&seg),
-                            Span::new(pos - seg.chars().count() + 1, pos + 1) + span.start(),
+                            byte_span(pos - seg.chars().count() + 1, pos + 1),
                         ));
                     }
                     template = true;
@@ -724,7 +737,7 @@ impl StringLiteralToken<&str> {
         if !template && !current.is_empty() {
             segments.push(StringSegment::Literal(
                 unescape_string_literal(&current),
-                Span::new(pos - current.chars().count() + 1, pos + 1) + span.start(),
+                byte_span(pos - current.chars().count() + 1, pos + 1),
             ));
         }
 
